@@ -7,10 +7,10 @@ set -u
 ROOT="$(cd "$(dirname "${BASH_SOURCE[0]}")/.." && pwd)"
 WT=${SEED_EVAL_WT:-/tmp/seed-eval-wt}
 if [ ! -d "$WT" ]; then git -C /repo worktree add --detach "$WT" HEAD >/dev/null 2>&1 || exit 2; fi
-( cd "$WT" && git checkout -q -- . && git checkout -q --detach "$(git -C /repo rev-parse HEAD)" )
+( cd "$WT" && git reset -q --hard HEAD && git checkout -q --detach "$(git -C /repo rev-parse HEAD)" )
 for D in "$@"; do
   prop=$(echo "$D" | sed -E 's#.*/(C[0-9]+)[-/]([0-9]+)/?$#\1#')
-  ( cd "$WT" && git checkout -q -- . && git clean -fdq src/ tests/ 2>/dev/null )
+  ( cd "$WT" && git reset -q --hard HEAD && git clean -fdq src/ tests/ examples/ 2>/dev/null )
   if ! ( cd "$WT" && { git apply "$D/patch.diff" 2>/dev/null || git apply -3 "$D/patch.diff" 2>/dev/null; } ); then
     echo "{\"candidate\":\"$D\",\"error\":\"patch does not apply at $(git -C /repo rev-parse --short HEAD)\"}" | tee "$D/eval.json"; continue
   fi
@@ -26,4 +26,4 @@ for D in "$@"; do
   done
   echo "{\"candidate\":\"$D\",\"head\":\"$(git -C /repo rev-parse --short HEAD)\",\"results\":[${res%,}]}" | tee "$D/eval.json"
 done
-( cd "$WT" && git checkout -q -- . )
+( cd "$WT" && git reset -q --hard HEAD )
